@@ -8,9 +8,11 @@ cp /verif/selftest/p1_probe.go.txt "$copy/types/zz_probe.go"
 out=$(UHLINT_REPO="$copy" UHLINT_EVIDENCE_DIR="$ev" /verif/bin/uhlint check C04 2>/dev/null)
 rm -rf "$copy" "$ev"
 rc=0
-for p in probe1 probe2 probe3 probe4 probe5; do
+for p in probe1 probe2 probe3 probe4 probe5 probe7 probe8 probe9 probe10; do
   echo "$out" | grep -q "types.$p:" || { echo "MISSED: $p is not reported"; rc=1; }
 done
-echo "$out" | grep -q "types.probe6ok" && { echo "FALSE ALARM: probe6ok is reported"; rc=1; }
-[ $rc = 0 ] && echo "probes: 5 unsafe reported, 1 safe silent"
+for p in probe6ok probe11ok; do
+  echo "$out" | grep -q "types.$p" && { echo "FALSE ALARM: $p is reported"; rc=1; }
+done
+[ $rc = 0 ] && echo "probes: 9 unsafe reported, 2 safe silent"
 exit $rc
